@@ -44,7 +44,7 @@ def budget(tier):
 
 @st.composite
 def _case(draw):
-    table = draw(progs.tables(min_rows=1, max_rows=6, ragged=False, extra=False, pad=False, space_cells=False))
+    table = draw(progs.tables(min_rows=1, max_rows=6, ragged=draw(st.sampled_from([False, False, True])), extra=False, pad=False, space_cells=False))
     scan = draw(progs.scans(table))
     env = progs.Env(table)
     x_expr, _ = draw(st.sampled_from(["n", "s"])), None
@@ -190,6 +190,10 @@ def run_case(case, sb):
         if core.finding_active("KF-C16-adjacent-refs"):
             return core.outcome(excluded="KF-C16-adjacent-refs", labels=labels)
     it = refinterp.Interp(prog, records, common.scanset(case["scan"], len(records)))
+    # a header reference on a row too short to hold it: what is printed for it is not fixed by the
+    # statement, but the entry must still be produced with every other character in place
+    WILD = "\x00ANY\x00"
+    it.absent_header_wildcard = WILD
     orig_ref = it._ref_value
 
     def ref_value(ch):
@@ -230,7 +234,15 @@ def run_case(case, sb):
             problems.append({"printer1": cp.lines, "printer2": cp2.lines})
         exp = model.printouts
         got = cp.lines
-        if got != exp:
+        if any(WILD in e for e in exp):
+            import re as _re
+            labels.append("absent-header-reference")
+            same = len(exp) == len(got) and all(
+                _re.fullmatch(".*?".join(_re.escape(part) for part in e.split(WILD)), g, flags=_re.S) is not None
+                for e, g in zip(exp, got))
+            if not same:
+                problems.append({"expected_pattern": [e.replace(WILD, "<any>") for e in exp], "observed": got})
+        elif got != exp:
             # header cells may carry surrounding whitespace: compare with stripped header values too
             problems.append({"expected": exp, "observed": got})
         if p.errors:
